@@ -1,2 +1,176 @@
+//! C01: one exchange (fixed request, fixed server byte stream) under many I/O schedules. Cases of one
+//! group (`meta group <id>`) must all produce the same observable outcome; the server bytes consumed must
+//! add up to exactly the response message(s) of the exchange (`meta msglen`).
+use super::bodyr::NEXT;
 use super::Ctx;
-pub fn c01(_cx: &mut Ctx) {}
+use crate::exec::hx;
+use crate::rng::Rng;
+
+struct Exchange {
+    req: String,
+    payload: Vec<u8>,
+    stream: Vec<u8>,   // interim 100 (optional) + response message + NEXT
+    msglen: usize,     // bytes of this exchange's response message(s)
+    /// arrival points inside [lo, hi) are moved to hi: a 3xx head cut after its complete Location line is
+    /// accepted early by the partial-redirect fallback (owned by C05)
+    forbid: Option<(usize, usize)>,
+}
+
+fn gen_exchange(r: &mut Rng) -> Exchange {
+    let body_method = r.chance(1, 2);
+    let method = if body_method { *r.pick(&["POST", "PUT", "PATCH"]) } else { *r.pick(&["GET", "HEAD", "DELETE", "OPTIONS"]) };
+    let version = if matches!(method, "GET" | "HEAD" | "POST") && r.chance(1, 4) { "HTTP/1.0" } else { "HTTP/1.1" };
+    let payload: Vec<u8> = (0..if body_method { r.range(0, 300) } else { 0 }).map(|i| (i * 7 % 251) as u8).collect();
+    let mut hs: Vec<(String, Vec<u8>)> = vec![("x-trace".into(), b"abc".to_vec())];
+    let expect = body_method && r.chance(1, 2);
+    if body_method && r.chance(1, 2) { hs.push(("content-length".into(), payload.len().to_string().into_bytes())); }
+    if expect { hs.push(("expect".into(), b"100-continue".to_vec())); }
+    if r.chance(1, 6) { hs.push(("connection".into(), b"close".to_vec())); }
+    let mut req = format!("{} {} http://a.test/path?q=1 {}", method, version, hs.len());
+    for (k, v) in &hs { req.push_str(&format!(" {} {}", k, hx(v))); }
+    // server side
+    let mut stream = Vec::new();
+    // with Expect the server answers 100 first (whether the caller sees it in time is part of the schedule);
+    // without Expect there is no interim response
+    let interim = expect;
+    if interim { stream.extend_from_slice(b"HTTP/1.1 100 Continue\r\n\r\n"); }
+    let status = *r.pick(&[200u16, 200, 201, 204, 301, 302, 404, 500, 304]);
+    let rv = if r.chance(1, 5) { "HTTP/1.0" } else { "HTTP/1.1" };
+    let head_start = stream.len();
+    let mut head = format!("{} {} Reason\r\nX-One: 1\r\n", rv, status).into_bytes();
+    if r.chance(1, 5) { head.extend_from_slice(b"Connection: close\r\n"); }
+    let body: Vec<u8> = (0..r.range(0, 120)).map(|_| *r.pick(b"ab\r\n0;xHTTP/1. ")).collect();
+    let no_body = method == "HEAD" || matches!(status, 204 | 304);
+    let framing = r.below(3);
+    let mut coded = Vec::new();
+    match framing {
+        0 => { head.extend_from_slice(format!("Content-Length: {}\r\n", body.len()).as_bytes()); coded.extend_from_slice(&body); }
+        1 if rv == "HTTP/1.1" => {
+            head.extend_from_slice(b"Transfer-Encoding: chunked\r\n");
+            let mut off = 0;
+            while off < body.len() { let n = 1 + r.below((body.len() - off).min(40)); coded.extend_from_slice(format!("{:X}\r\n", n).as_bytes()); coded.extend_from_slice(&body[off..off + n]); coded.extend_from_slice(b"\r\n"); off += n; }
+            coded.extend_from_slice(b"0\r\n");
+            if r.chance(1, 3) { coded.extend_from_slice(b"Trailer: x\r\n"); }
+            coded.extend_from_slice(b"\r\n");
+        }
+        _ => { head.extend_from_slice(format!("Content-Length: {}\r\n", body.len()).as_bytes()); coded.extend_from_slice(&body); }
+    }
+    let mut forbid = None;
+    if (300..400).contains(&status) && status != 304 {
+        let loc_end = head_start + head.len() + b"Location: /next\r\n".len();
+        head.extend_from_slice(b"Location: /next\r\n");
+        forbid = Some((loc_end, loc_end + 2));
+    }
+    head.extend_from_slice(b"\r\n");
+    stream.extend_from_slice(&head);
+    if !no_body { stream.extend_from_slice(&coded); }
+    let msglen = stream.len();
+    stream.extend_from_slice(NEXT);
+    Exchange { req, payload, stream, msglen, forbid }
+}
+
+fn adjust(ex: &Exchange, p: usize) -> usize {
+    match ex.forbid { Some((lo, hi)) if p >= lo && p < hi => hi, _ => p }
+}
+
+/// run the exchange under one schedule drawn from `r`
+fn run_schedule(cx: &mut Ctx, ex: &Exchange, r: &mut Rng, mode: usize) {
+    if cx.rec.new_flow(&ex.req) != "ok" { return; }
+    let cap_of = |r: &mut Rng| -> usize { match mode { 0 => 100000, 1 => 1 + r.below(8), 2 => *r.pick(&[5usize, 6, 7, 16, 30, 64]), 3 => r.range(1, 300), _ => *r.pick(&[1usize, 2, 3, 20, 100000]) } };
+    let step_of = |r: &mut Rng| -> usize { match mode { 0 => 100000, 1 => 1, 2 => 1 + r.below(4), 3 => r.range(1, 60), _ => *r.pick(&[1usize, 2, 7, 100000]) } };
+    let query = |cx: &mut Ctx, r: &mut Rng| { if mode != 0 && r.chance(1, 4) { cx.op("canproceed"); } };
+    let mut arrived = 0usize;
+    let mut soff = 0usize;
+    let mut boff = 0usize;
+    let mut guard = 0;
+    let mut gave_up = r.chance(1, 3);
+    while guard < 6000 {
+        guard += 1;
+        match cx.rec.state() {
+            "prepare" => { cx.op("proceed"); }
+            "sendRequest" => {
+                // the head writer needs room for the longest line; smaller buffers are a (repeatable) error
+                let cap = cap_of(r).max(if mode == 1 { 1 } else { 0 });
+                let res = cx.op(&format!("write {}", if cap < 40 && r.chance(1, 2) { cap + 40 } else { cap }));
+                let _ = res;
+                query(cx, r);
+                if cx.op("canproceed") == "bool true" { cx.op("proceed"); }
+            }
+            "await100" => {
+                if cx.op("keep100") == "bool false" || (gave_up && r.chance(1, 2)) { cx.op("proceed"); gave_up = false; continue; }
+                arrived = adjust(ex, (arrived + step_of(r)).min(ex.stream.len()));
+                let res = cx.op(&format!("read100 {}", hx(&ex.stream[soff..arrived])));
+                if let Some(n) = res.strip_prefix("count ") { soff += n.parse::<usize>().unwrap(); }
+                if arrived >= ex.stream.len() && cx.op("keep100") == "bool true" { cx.op("proceed"); }
+            }
+            "sendBody" => {
+                if r.chance(1, 5) { cx.op("chunked?"); }
+                if r.chance(1, 6) { cx.op(&format!("maxin {}", cap_of(r))); }
+                let chunked = cx.op("chunked?") == "bool true";
+                if boff < ex.payload.len() {
+                    let upto = (boff + step_of(r).max(1)).min(ex.payload.len());
+                    let cap = if chunked { cap_of(r).max(6) } else { cap_of(r) };
+                    let res = cx.op(&format!("bwrite {} {}", hx(&ex.payload[boff..upto]), cap));
+                    let p: Vec<&str> = res.split(' ').collect();
+                    if p[0] == "bytes" { boff += p[1].parse::<usize>().unwrap(); } else { return; }
+                } else {
+                    if cx.op("canproceed") == "bool true" { cx.op("proceed"); continue; }
+                    let cap = cap_of(r);
+                    cx.op(&format!("bwrite - {}", cap));
+                }
+                query(cx, r);
+            }
+            "recvResponse" => {
+                let res = cx.op(&format!("resp {}", hx(&ex.stream[soff..arrived.max(soff)])));
+                let p: Vec<&str> = res.split(' ').collect();
+                if p[0] != "resp" { return; }
+                let n: usize = p[1].parse().unwrap();
+                soff += n;
+                if p[2] != "none" { query(cx, r); cx.op("proceed"); }
+                else if n == 0 {
+                    if arrived >= ex.stream.len() { return; }
+                    arrived = adjust(ex, (arrived.max(soff) + step_of(r)).min(ex.stream.len()));
+                }
+            }
+            "recvBody" => {
+                if r.chance(1, 6) { cx.op("boundary"); }
+                if r.chance(1, 8) { cx.op("mode"); }
+                if cx.op("canproceed") == "bool true" && arrived >= ex.msglen { cx.op("proceed"); continue; }
+                let cap = cap_of(r);
+                let res = cx.op(&format!("bread {} {}", hx(&ex.stream[soff..arrived.max(soff)]), cap));
+                let p: Vec<&str> = res.split(' ').collect();
+                if p[0] != "bytes" { return; }
+                let n: usize = p[1].parse().unwrap();
+                soff += n;
+                if n == 0 && p[2] == "-" {
+                    if arrived >= ex.stream.len() {
+                        // close-delimited or stuck: everything has arrived
+                        if cx.op("canproceed") == "bool true" { cx.op("proceed"); } else { return; }
+                    } else {
+                        arrived = (arrived.max(soff) + step_of(r)).min(ex.stream.len());
+                    }
+                }
+            }
+            "redirect" => { cx.op("status"); cx.op("close?"); cx.op("reason"); cx.op("proceed"); }
+            "cleanup" => { cx.op("close?"); cx.op("reason"); break; }
+            _ => break,
+        }
+    }
+    cx.meta(&format!("consumed {}", soff));
+}
+
+pub fn c01(cx: &mut Ctx) {
+    let groups = if cx.thorough { 1500 } else { 150 };
+    let schedules = if cx.thorough { 24 } else { 12 };
+    for g in 0..groups {
+        let mut r0 = Rng::for_case(cx.seed ^ 0x5151, g as u64);
+        let ex = gen_exchange(&mut r0);
+        for s in 0..schedules {
+            let mut r = cx.case("x");
+            cx.meta(&format!("group {}", g));
+            cx.meta(&format!("msglen {}", ex.msglen));
+            cx.meta(&format!("payload {}", hx(&ex.payload)));
+            run_schedule(cx, &ex, &mut r, s % 5);
+        }
+    }
+}
